@@ -16,6 +16,10 @@
 //	new <n> <sessA> <sessB> <faultyMask> <app>   fresh episode; bit i of faultyMask: key i is the adversary's (bit n: an outsider); app: gen | pedersen
 //	reg <w> <m> <id>                             RegisterMessageIDFuncs (app=pedersen: pedersen.NewBoard registers its node_pubkeys id)
 //	sreq <w> <m> <from> <id> <pay>               -> ok s<k> d=<dedupLen> | unknown-id .. | check-fail .. | dup ..
+//	sreq2 <w> <m> <from> <id> <payA> <payB> <ab|ba>  two CONCURRENT handleSigRequest calls for one (requester,id): request A is held inside the
+//	                                             member's sign function (hook VerifWrapSign) until request B has either returned or reached signing too
+//	                                             -> <classA>[ s<k>] <classB>[ s<k>] d=<dedupLen>; the last token is an oracle written by the driver: the
+//	                                             sequential order the observed outcome corresponds to (the model's handler is atomic: it runs that order)
 //	msg <w> <m> <from> <id> <pay> <sigs>         -> ok cb=1 | cb-err cb=0 | wrong-count | not-allowed | bad-len | bad-sig | bad-any
 //	bc <w> <a> <id> <pay> <ov>                   -> <ok|sign-fail|req-fail|verify-fail> req=<per peer> msg=<per peer> pool=<size>
 //	hash <sess> <id> <typeUrl> <value>           -> hex digest (real newHashAny vs SHA-256 of the model's encoding)
@@ -46,6 +50,7 @@ import (
 	"strconv"
 	"strings"
 	"sync"
+	"sync/atomic"
 	"time"
 
 	k1 "github.com/decred/dcrd/dcrec/secp256k1/v4"
@@ -156,6 +161,12 @@ type bcRec struct {
 	pay payload
 }
 
+// signGate holds every call of a member's server-side sign function until release is closed.
+type signGate struct {
+	arrive  chan struct{}
+	release chan struct{}
+}
+
 type cbRec struct {
 	w, m, from int
 	id         string
@@ -175,6 +186,7 @@ type episode struct {
 	ctx      context.Context
 	cancel   context.CancelFunc
 
+	gates  [2][]atomic.Pointer[signGate] // per component: gate inside the server's sign function (sreq2)
 	mu     sync.Mutex
 	cbs    []cbRec
 	curPay payload
@@ -357,8 +369,20 @@ func newEpisode(run *hx.Run, n int, sessA, sessB []byte, faulty uint, app string
 	for w, s := range [][]byte{sessA, sessB} {
 		wd := &world{idx: w, session: s, accepted: map[string]map[int]string{}, signed: map[string]string{},
 			boards: make([]*pedersen.Board, n)}
+		ep.gates[w] = make([]atomic.Pointer[signGate], n)
 		for m := 0; m < n; m++ {
-			wd.comps = append(wd.comps, bcast.VerifNew(pids[m], pids[:n], keys[m], s, ep.sendRecv(w, m), ep.send(w, m)))
+			c := bcast.VerifNew(pids[m], pids[:n], keys[m], s, ep.sendRecv(w, m), ep.send(w, m))
+			gp := &ep.gates[w][m]
+			c.VerifWrapSign(func(next func(string, []byte) ([]byte, error)) func(string, []byte) ([]byte, error) {
+				return func(id string, h []byte) ([]byte, error) {
+					if g := gp.Load(); g != nil {
+						g.arrive <- struct{}{}
+						<-g.release
+					}
+					return next(id, h)
+				}
+			})
+			wd.comps = append(wd.comps, c)
 		}
 		if bytes.Equal(sessA, sessB) {
 			wd.tainted = true // two instances of one session: outside the "sessions differ" hypothesis
@@ -457,6 +481,11 @@ func (ep *episode) spoofCheck(w, from int) {
 func (ep *episode) callSigReq(w, m, from int, id string, pay payload) (string, []byte) {
 	ep.curPay = pay
 	resp, ok, err := ep.worlds[w].comps[m].VerifHandleSigRequest(ep.ctx, pids[from], &pb.BCastSigRequest{Id: id, Message: pay.any()})
+	return ep.finishSigReq(w, m, from, id, pay, resp, ok, err)
+}
+
+// finishSigReq classifies a handler answer, checks the signature and feeds monitors 1 and 3.
+func (ep *episode) finishSigReq(w, m, from int, id string, pay payload, resp proto.Message, ok bool, err error) (string, []byte) {
 	if err != nil {
 		return sigReqClass(err), nil
 	}
@@ -473,6 +502,66 @@ func (ep *episode) callSigReq(w, m, from int, id string, pay payload) (string, [
 	ep.signedFor(w, m, from, id, pay)
 	ep.ledger[ledgerKey(m, ep.worlds[w].session, id, pay.key())] = true
 	return "ok", r.GetSignature()
+}
+
+// doSigReq2: two overlapping signature requests of one requester for one id. Request A runs until
+// it returns or sits inside the member's sign function; only then request B starts and runs until it
+// returns or reaches the sign function as well; then both are released. With an atomic
+// check-and-record B never gets to sign a different hash.
+func (ep *episode) doSigReq2(w, m, from int, id string, pa, pb2 payload) (string, string) {
+	ep.spoofCheck(w, from)
+	comp := ep.worlds[w].comps[m]
+	g := &signGate{arrive: make(chan struct{}, 2), release: make(chan struct{})}
+	ep.gates[w][m].Store(g)
+	type res struct {
+		resp proto.Message
+		ok   bool
+		err  error
+	}
+	call := func(p payload, out chan res) {
+		r, ok, err := comp.VerifHandleSigRequest(ep.ctx, pids[from], &pb.BCastSigRequest{Id: id, Message: p.any()})
+		out <- res{r, ok, err}
+	}
+	ca, cb := make(chan res, 1), make(chan res, 1)
+	var ra, rb *res
+	go call(pa, ca)
+	select {
+	case <-g.arrive:
+	case r := <-ca:
+		ra = &r
+	}
+	go call(pb2, cb)
+	select {
+	case <-g.arrive:
+		ep.run.Count("sreq2:second_request_reached_signing")
+	case r := <-cb:
+		rb = &r
+	}
+	close(g.release)
+	if ra == nil {
+		r := <-ca
+		ra = &r
+	}
+	if rb == nil {
+		r := <-cb
+		rb = &r
+	}
+	ep.gates[w][m].Store(nil)
+	clsA, sigA := ep.finishSigReq(w, m, from, id, pa, ra.resp, ra.ok, ra.err)
+	clsB, sigB := ep.finishSigReq(w, m, from, id, pb2, rb.resp, rb.ok, rb.err)
+	outA, outB := clsA, clsB
+	if clsA == "ok" {
+		outA = fmt.Sprintf("ok s%d", ep.recordSig(w, m, id, pa, sigA))
+	}
+	if clsB == "ok" {
+		outB = fmt.Sprintf("ok s%d", ep.recordSig(w, m, id, pb2, sigB))
+	}
+	order := "ab"
+	if clsB == "ok" && clsA == "dup" {
+		order = "ba"
+	}
+	ep.run.Count("sreq2:" + clsA + "+" + clsB)
+	return fmt.Sprintf("%s %s d=%d", outA, outB, comp.VerifDedupLen()), order
 }
 
 func (ep *episode) doSigReq(w, m, from int, id string, pay payload) string {
@@ -801,6 +890,11 @@ func (d *driver) exec(op string) string {
 		d.reg[f[1]+"|"+f[2]+"|"+id] = true
 	case "sreq":
 		out = d.ep.doSigReq(atoi(f[1]), atoi(f[2]), atoi(f[3]), string(unhex(f[4])), parsePay(f[5]))
+	case "sreq2":
+		var order string
+		out, order = d.ep.doSigReq2(atoi(f[1]), atoi(f[2]), atoi(f[3]), string(unhex(f[4])), parsePay(f[5]), parsePay(f[6]))
+		f[7] = order // oracle: which sequential order the implementation's outcome is
+		op = strings.Join(f, " ")
 	case "msg":
 		out = d.ep.doMsg(atoi(f[1]), atoi(f[2]), atoi(f[3]), string(unhex(f[4])), parsePay(f[5]), f[6])
 	case "bc":
@@ -976,6 +1070,18 @@ func (g *gen) sreq(kind string, w, m, from int, id string, pay payload) string {
 	return out
 }
 
+func (g *gen) sreq2(kind string, w, m, from int, id string, pa, pb2 payload) string {
+	out := g.d.exec(fmt.Sprintf("sreq2 %d %d %d %s %s %s ab", w, m, from, hexs([]byte(id)), g.ep().payTok(w, pa), g.ep().payTok(w, pb2)))
+	var cls []string
+	for _, t := range strings.Fields(out) {
+		if !strings.HasPrefix(t, "d=") && !(len(t) > 1 && t[0] == 's' && t[1] >= '0' && t[1] <= '9') {
+			cls = append(cls, t)
+		}
+	}
+	g.d.run.Case(fmt.Sprintf("%s/sreq2/n%d/%s", kind, g.ep().n, strings.Join(cls, "+")))
+	return out
+}
+
 func (g *gen) msg(kind string, w, m, from int, id string, pay payload, sigs string) string {
 	out := g.d.exec(fmt.Sprintf("msg %d %d %d %s %s %s", w, m, from, hexs([]byte(id)), g.ep().payTok(w, pay), sigs))
 	g.caseKey(kind+"/msg", out)
@@ -1028,6 +1134,11 @@ func (g *gen) equivocate(w int, withhold bool) {
 	}
 	for _, m := range g.rng.Perm(ep.n) {
 		if m == f || (withhold && g.rng.Chance(1, 3)) {
+			continue
+		}
+		if g.rng.Chance(1, 3) { // both payloads at the same time
+			i := g.rng.Intn(2)
+			g.sreq2("equiv", w, m, f, id, pays[i], pays[1-i])
 			continue
 		}
 		g.sreq("equiv", w, m, f, id, pays[g.rng.Intn(2)])
@@ -1116,7 +1227,13 @@ func (g *gen) noise(w int) {
 	if g.rng.Chance(1, 3) {
 		pay = g.weirdPay()
 	}
-	switch g.rng.Intn(3) {
+	switch g.rng.Intn(4) {
+	case 3:
+		other := g.ownPay(w, from)
+		if g.rng.Chance(1, 4) {
+			other = g.weirdPay()
+		}
+		g.sreq2("noise", w, m, from, id, pay, other)
 	case 0:
 		g.sreq("noise", w, m, from, id, pay)
 	case 1:
